@@ -285,6 +285,9 @@ func (r *Run) satWithSolver(t *Term, final bool) string {
 	}
 	if res == "unknown" {
 		r.stats.Unknown++
+		if r.eng.opts.Verbose && r.stats.Unknown <= 2 {
+			fmt.Fprintf(os.Stderr, "  unknown (%s) after %.1fs: %s\n", r.hname, time.Since(t0).Seconds(), r.sol.LastErr)
+		}
 	}
 	return res
 }
